@@ -402,6 +402,18 @@ def generate(template_path: str) -> Tuple[str, List[dict]]:
             ctx_src, ctx_item = getsrc(arg0), None
             i += 1
             continue
+        if cmd == "type":
+            # associated type of the context impl, verbatim
+            scope = items_in(ctx_src.toks, ctx_item.body_open + 1, ctx_item.body_close)
+            c = [it for it in scope if it.kind == "type" and it.name == arg0]
+            if len(c) != 1:
+                raise Lost(f"{ctx_src.spec}: assoc type {arg0} found {len(c)} times")
+            tt = strip_attrs(ctx_src.toks[c[0].first:c[0].last + 1])
+            uid += 1
+            out.append(f"{indent}/*@B:{uid}*/ " + " ".join(t.text for t in tt) + f" /*@E:{uid}*/")
+            manifest.append({"uid": uid, "kind": "type", "src": ctx_src.spec, "name": arg0, "tokens": texts(tt)})
+            i += 1
+            continue
         if cmd == "fn":
             if ctx_src is None:
                 raise Lost("//@fn without context")
@@ -436,6 +448,7 @@ def generate(template_path: str) -> Tuple[str, List[dict]]:
                 btoks = src.toks[fn.body_open:fn.body_close + 1]
                 body = src.text[btoks[0].start:btoks[-1].end]
                 rec["body_tokens"] = texts(btoks)
+                rec["body_text"] = body
                 inserts = []
                 j += 1
                 if term == "body+":
@@ -495,7 +508,7 @@ def selfcheck(gen_text: str, manifest: List[dict]) -> None:
         region = re.sub(r"/\*@I\*/.*?/\*@/I\*/", " ", m.group(1), flags=re.S)
         got = norm(region)
         if rec["kind"] == "fn":
-            exp_text = " ".join(rec["body_tokens"])
+            exp_text = rec["body_text"]
             for r in rec.get("rewrites", []):
                 exp_text = REWRITES[r](exp_text)
             exp = norm(exp_text)
